@@ -239,6 +239,37 @@ def main(tier, replay=None):
             traces.append(tr)
             metas.append(("render", "", {n: render.render_file(ds) for n, ds in pr["files"].items()}))
             rep.feature("render-valid")
+        # (d) multi-file programs: every catalogue violation (cyclic imports whose closing path is spelled
+        # differently, duplicate imports, names leaking between files ...) ends in a parser error, and import
+        # paths spelled with ./ still resolve
+        from .. import inject
+        rules = [r_ for r_ in inject.CATALOGUE if r_ != "extensible-in-traditional"]
+        for k in range(nprog):
+            rng = random.Random("c09d/%d/%d" % (seed, k))
+            base, _ = gen.rand_case(seed, 155000 + k, max_bits=rng.choice([60, 300]))
+            rule = ("cyclic-import", rules[k % len(rules)], "valid-spelled-import")[k % 3]
+            if rule == "valid-spelled-import":
+                pr, note = base, "imports spelled with ./"
+                for ds in pr["files"].values():
+                    for d_ in ds:
+                        if d_["d"] == "import":
+                            d_["spell"] = rng.choice(["./", "././"])
+            else:
+                got = inject.inject(base, rule, rng)
+                if got is None:
+                    continue
+                pr, note = got
+            d = scratch.sub()
+            main_path, paths = render.write_program(pr, d)
+            proto, outcome = P.observe_parse(main_path)
+            tr = P.spec_program(pr)
+            tr["id"] = "c09-files-%d-%d-%s" % (seed, k, rule)
+            tr["obs"] = [dict(outcome, ev="OutcomeAcc"), {"ev": "Terminates"}]
+            if proto is not None:
+                tr["obs"] += render_events(main_path, d)
+            traces.append(tr)
+            metas.append(("multi-file", "%s: %s" % (rule, note), {n: render.render_file(ds) for n, ds in pr["files"].items()}))
+            rep.feature("multi-file:" + rule)
         verdicts = []
         B = 5000
         for i in range(0, len(traces), B):
